@@ -391,8 +391,20 @@ MUTANTS = [
   "        if key in surf_used and entry not in bound_conds:",
   "        if key in surf_used:"),
  ('C16-6', 'C16', K + 'BoundaryCondition/CConversionBoundaryCondition.py',
-  "                if len(v) > 1:",
+  "                if len(v) > 1 or getattr(v[0][0], 'from_macrobody', False):",
   "                if len(v) > 6:"),
+ ('C16-8', 'C16', K + 'BoundaryCondition/CConversionBoundaryCondition.py',
+  "                if len(v) > 1 or getattr(v[0][0], 'from_macrobody', False):",
+  "                if len(v) > 1:"),
+ ('C16-9', 'C16', K + 'Transformation/Transformation.py',
+  "    return SurfaceMCNP(surface.boundary_cond, surface.type_surface, frame,",
+  "    return SurfaceMCNP('', surface.type_surface, frame,"),
+ ('C18-8', 'C18', K + 'FileHandlers/Writer/WriteT4Geometry.py',
+  "                vol_conv, dic_surface_mcnp = pickle.load(dicfile)",
+  "                vol_conv, _unused = pickle.load(dicfile)"),
+ ('C14-9', 'C14', K + 'Composition/CCompositionMCNP.py',
+  "            if '=' in isotope or isotope[:1].isalpha():",
+  "            if '=' in isotope and len(isotope) > 1:"),
  ('C16-7', 'C16', K + 'BoundaryCondition/CConversionBoundaryCondition.py',
   "            if v[0][0].boundary_cond != '':",
   "            if v[0][0].boundary_cond == '*':"),
